@@ -18,6 +18,9 @@ HISTORY_TAGS = {
     110: (0, 4),
     130: (1, 4),
     140: (1, 4),
+    150: (6, 4),
+    160: (3, 4),
+    170: (3, 4),
 }
 
 PROPS = {
@@ -69,6 +72,27 @@ PROPS.update({
         "rule": "mock clock. tag 140: same history generators as C13 (abstract bounded-exhaustive + seeded random over the full alphabet incl. malformed and mixed registered/non-registered traffic, resets, polls, time steps); the implementation's complete trace is judged by the extracted C14 monitor (check_C14), independently of the model; agreement with the model is checked too",
         "exhaustive": {},
         "assumptions": ["the mock clock stands in for std::time::Instant"],
+    },
+})
+
+PROPS.update({
+    "C15": {
+        "runs": [("C15", "std", "normal")],
+        "rule": "tag 150, for each of the three scanners: every ordered pair of the 16 channels x all depth-2 (thorough 4) sequences over an abstracted two-channel alphabet (incl. polls and time for the polling scanner), and seeded random interleavings on up to 16 channels over the full alphabet; the interleaved run is compared with own-scanner runs of the projected per-channel histories (metamorphic, model-free) and with the model",
+        "exhaustive": {},
+        "assumptions": ["mock clock for the polling scanner"],
+    },
+    "C16": {
+        "runs": [("C16", "std", "normal")],
+        "rule": "tag 161: all 128 controller numbers (predicates + whether each scanner reacts); tag 162: every controller_numbers constant of the regenerated table; tag 160: for each scanner, after seeded random prior histories: every non-Control-Change status byte with seeded data bytes and every non-contributing controller number x {0,127,seeded} (thorough: all 128 values), fed as raw/structured/third-party implementors; observation = nothing reported and scanner == its copy taken before",
+        "exhaustive": {"quick": False},
+        "assumptions": ["derived PartialEq of the scanners is the notion of equal state"],
+    },
+    "C17": {
+        "runs": [("C17", "std", "normal")],
+        "rule": "tag 170, for each scanner and timeouts {0,1,5,1000,2^60}: seeded random history, then reset: == new(timeout); default()==new (polling: new(0)); continuation outputs equal to a new scanner's; copies taken before the reset evolve identically and independently",
+        "exhaustive": {},
+        "assumptions": ["mock clock for the polling scanner", "copy independence is a language guarantee of derive(Copy) on plain data: modelled, exercised by the harness, not proved"],
     },
 })
 
